@@ -84,10 +84,12 @@ NI int ledger_snapshot(void) {
 }
 NI size_t ledger_size_of(void *p) { int i = find(p); return i < 0 ? (size_t)-1 : pool[i].n; }
 
+size_t ledger_limit = (size_t)64 << 20;   /* single requests above this fail (as a real allocator would for absurd sizes) */
 NI static int tick(size_t n) {
     if(!ledger_on) return 0;
     ledger_count++;
     if(n > ledger_big_request) ledger_big_request = n;
+    if(n > ledger_limit) return 1;
     if(ledger_count == ledger_fail_at || ledger_count == ledger_fail_at2) { ledger_failed++; return 1; }
     return 0;
 }
@@ -95,7 +97,7 @@ NI static int tick(size_t n) {
 NI void *__wrap_malloc(size_t n) {
     if(tick(n)) { errno = ENOMEM; return 0; }
     void *p = __real_malloc(n);
-    if(ledger_on && p) { memset(p, 0xA5, n); add(p, n); }
+    if(ledger_on && p) { memset(p, 0xA5, n < (1u << 20) ? n : (1u << 20)); add(p, n); }
     return p;
 }
 NI void *__wrap_calloc(size_t a, size_t b) {
@@ -116,7 +118,7 @@ NI void *__wrap_realloc(void *o, size_t n) {
     /* deterministic contents: always move to a fresh block so that slack is pattern-filled */
     void *p = __real_malloc(n ? n : 1);
     if(!p) return 0;
-    memset(p, 0xA5, n ? n : 1);
+    memset(p, 0xA5, n ? (n < (1u << 20) ? n : (1u << 20)) : 1);
     if(o) { memcpy(p, o, on < n ? on : n); }
     if(i >= 0) { del_at(i); __real_free(o); }
     add(p, n);
